@@ -773,11 +773,8 @@ class Tr:
         body = list(s.body)
         # the row binding `p = A[i, 0:2]` names the element
         elem_py = None
-        if body and isinstance(body[0], ast.Assign) and isinstance(body[0].targets[0], ast.Name) \
-                and isinstance(body[0].value, ast.Subscript) and isinstance(body[0].value.value, ast.Name) \
-                and body[0].value.value.id == arr and ast.unparse(body[0].value.slice) == "(%s, slice(0, 2, None))" % idx \
-                or (body and isinstance(body[0], ast.Assign) and ast.unparse(body[0].value) == "%s[%s, 0:2]" % (arr, idx)
-                    and isinstance(body[0].targets[0], ast.Name)):
+        if body and isinstance(body[0], ast.Assign) and len(body[0].targets) == 1 and isinstance(body[0].targets[0], ast.Name) \
+                and ast.unparse(body[0].value) == "%s[%s, 0:2]" % (arr, idx):
             elem_py = body[0].targets[0].id
         elem = self.fresh(elem_py or "row")
         acc = self.fresh(acc_py)
@@ -989,6 +986,20 @@ def trusted_note(key):
             "the hand-written model by rfl on every run; its TARGETS table -- binders, which callee is which parameter, the obligation "
             "statements -- and its stated conventions -- elementwise broadcasting, sqrt/exp/log/pow as named parameters -- are trusted)"
             % (FILES[key][0], FILES[key][1]))
+
+
+def manifest_note(key):
+    """sentence appended to MANIFEST['note'] of the property that owns `key`"""
+    fs = []
+    for cfg in TARGETS:
+        if cfg["file"] == key:
+            f = cfg["func"] if cfg["region"] == "function" else "%s (%s)" % (cfg["func"], cfg["lean"])
+            if f not in fs:
+                fs.append(f)
+    return ("Source translator: these parts of %s are re-translated from the source text into Lean on every run (Generated/%s) "
+            "and proved EQUAL to the hand-written model definitions by rfl, polymorphically: %s; an edit of those lines -- "
+            "meaning-changing or not -- breaks a generated obligation and triggers the failing-input search (trusted: the "
+            "translator's stated conventions and its TARGETS table)." % (FILES[key][0], FILES[key][1], ", ".join(fs)))
 
 
 def prop_file(key):
@@ -1271,10 +1282,10 @@ def render_file(key, root):
                 text, skeleton, defaults = translate(src, fns, cfg)
             except Shape as e:
                 err = "Shape: %s" % e
-            except RecursionError as e:          # pathological nesting: outside the subset
-                err = "RecursionError: %s" % e
+            except Exception as e:               # anything else the source makes the translator do: outside the subset
+                err = "%s: %s" % (type(e).__name__, e)
         if err is not None:
-            o.append("/-- the translator could not read the source: %s -/" % err.replace("-/", "- /"))
+            o.append("/-- the translator could not read the source: %s -/" % err.replace("-/", "- /").replace("/-", "/ -").replace("\n", " "))
             o.append("def srcShape_%s : Bool := false" % f)
             o.append("theorem srcShape_%s_recognised : srcShape_%s = true := by decide\n" % (f, f))
             o.append("end\n")
